@@ -126,6 +126,13 @@ func SideConditions(as []*smt.Term) []*smt.Term {
 			add(smt.ASCII(x))
 		}
 		if x.Op == "=" {
+			// a string compared with the serialisation of a text token: then (and
+			// only then) the serialisation gets its meaning, html.EscapeString
+			for i := 0; i < 2; i++ {
+				if t := x.Args[i]; t.Op == "uf" && t.Name == "tokstr.Text.0" {
+					add(smt.Eq(t, EscapeDef(t.Args[0])))
+				}
+			}
 			// lower(y) = c  <=>  y in CI(c)
 			for i := 0; i < 2; i++ {
 				l, c := x.Args[i], x.Args[1-i]
@@ -161,6 +168,9 @@ func SideConditions(as []*smt.Term) []*smt.Term {
 			add(smt.Implies(smt.InRe(y, reNoUpper), smt.Eq(x, y)))
 			// lower-casing keeps every occurrence of a letter-case-insensitive fragment
 			for _, f := range HostileFragments {
+				if !LowerFragmentAxioms {
+					break
+				}
 				add(smt.Eq(smt.App("str.contains", smt.Bool, x, smt.StrC(f)), smt.InRe(y, smt.ReConcat(smt.SigmaStar, smt.ReCI(f), smt.SigmaStar))))
 			}
 		case "qbody":
@@ -216,6 +226,10 @@ func SideConditions(as []*smt.Term) []*smt.Term {
 // text of s (net/url's getScheme). Checks that only need scheme(norm(s)) =
 // scheme(s) switch it off to keep queries light.
 var SchemeAxiom = true
+
+// LowerFragmentAxioms adds, per ToLower application, the facts that hostile
+// fragments are preserved by lower-casing (needed by C18 only).
+var LowerFragmentAxioms = false
 
 // HostileFragments are the substrings C18 forbids in accepted CSS values.
 var HostileFragments = []string{"<", ">", "\\", "@", "expression(", "javascript:", "data:", "url("}
@@ -1202,4 +1216,14 @@ func trimTermPure(x *smt.Term) *smt.Term {
 		return smt.StrC(strings.TrimSpace(x.S))
 	}
 	return smt.UF("trimspace", smt.String, x)
+}
+
+// EscapeDef is html.EscapeString as a chain of replace_all (the ampersand
+// first, so that inserted entities are not escaped again).
+func EscapeDef(d *smt.Term) *smt.Term {
+	t := d
+	for _, pr := range [][2]string{{"&", "&amp;"}, {"'", "&#39;"}, {"<", "&lt;"}, {">", "&gt;"}, {"\"", "&#34;"}, {"\r", "&#13;"}} {
+		t = smt.ReplaceAll(t, smt.StrC(pr[0]), smt.StrC(pr[1]))
+	}
+	return t
 }
